@@ -7,6 +7,7 @@ import AlatorVerif.Driver.Sched
 import AlatorVerif.Driver.Strat
 import AlatorVerif.Driver.Cb
 import AlatorVerif.Driver.Http
+import AlatorVerif.Driver.Srv
 
 /-- one executable, one sub-command per modelled component; each reads the line protocol on stdin -/
 def main (args : List String) : IO UInt32 := do
@@ -16,6 +17,8 @@ def main (args : List String) : IO UInt32 := do
   | "broker" :: r => Drv.Broker.main r; return 0
   | "perf" :: r => Drv.Perf.main r; return 0
   | "server" :: r => Drv.Server.main r; return 0
+  | "server-uist" :: r => Drv.Srv.mainUist r; return 0
+  | "server-jura" :: r => Drv.Srv.mainJura r; return 0
   | "sched" :: r => Drv.Sched.main r; return 0
   | "strat" :: r => Drv.Strat.main r; return 0
   | "cb" :: _ => Drv.Cb.main; return 0
